@@ -50,3 +50,5 @@ def enumerated(tier):
     connect_only = [s for s in scs if s["flow"] == "connect" or s.get("split")]
     yield from life.single_fault_sweep(connect_only if tier == "quick" else scs)
     yield from life.hello_trailer_sweep()
+    yield from life.sock_fault_sweep()
+    yield from life.resolve_stage_sweep()
